@@ -139,6 +139,10 @@ func makeMessageFieldCoder(fd protoreflect.FieldDescriptor, ft reflect.Type) poi
 				return appendMessage(b, m, f.wiretag, opts)
 			},
 			unmarshal: func(b []byte, p pointer, wtyp protowire.Type, f *coderFieldInfo, opts unmarshalOptions) (unmarshalOutput, error) {
+				if wtyp != protowire.BytesType {
+					// An unknown field: it must not populate this one.
+					return unmarshalOutput{}, errUnknown
+				}
 				mp := p.AsValueOf(ft).Elem()
 				if mp.IsNil() {
 					mp.Set(reflect.New(ft.Elem()))
@@ -308,6 +312,10 @@ func makeGroupFieldCoder(fd protoreflect.FieldDescriptor, ft reflect.Type) point
 				return appendGroup(b, m, f.wiretag, opts)
 			},
 			unmarshal: func(b []byte, p pointer, wtyp protowire.Type, f *coderFieldInfo, opts unmarshalOptions) (unmarshalOutput, error) {
+				if wtyp != protowire.StartGroupType {
+					// An unknown field: it must not populate this one.
+					return unmarshalOutput{}, errUnknown
+				}
 				mp := p.AsValueOf(ft).Elem()
 				if mp.IsNil() {
 					mp.Set(reflect.New(ft.Elem()))
